@@ -125,6 +125,19 @@ def check_C06(ctx, rep):
     if t2 is not None:
         sw = vg.map_tree(t2, lambda x: subst(x, {0: P(1), 1: P(0)}))
         expect_equiv(rep, "R12c", "f64 <=> TwoFloat (mirror)", "cmp-f64-mirror", D.expand_ordering_leaves(sw, flip=True), ref, b2, "reverse of TwoFloat <=> f64")
+    # R12v the link used by the comparison theory: a value with a NaN word is not valid
+    t, body = get_tree(rep, f, "R12v", "TwoFloat::is_valid")
+    if t is not None:
+        t2 = D.expand_bool_leaves(D.map_terms(t, _N.norm))
+        for w, wn in ((HI(a), "hi"), (LO(a), "lo")):
+            def assume(env, v=("bool", isnan(w))):
+                env.val.setdefault(v, True)
+                return True
+            outs = D.all_outcomes(t2, assume=assume)
+            wrong = [(e, l) for e, l in outs if not (l[0] == "leaf" and l[1] is FALSE)]
+            rep.check(not wrong, "R12v", "is_valid with %s NaN" % wn, "valid-nan:" + wn,
+                      "is_valid can be true when %s is NaN: %s" % (wn, D.Mismatch(wrong[0][0], wrong[0][1], ("expected", "false")).describe() if wrong else ""),
+                      where=H.where(body), detail="%d outcome classes, all false (is_finite(NaN) = false)" % len(outs), nontrivial=False)
     # min / max
     for name, op in (("min", "le"), ("max", "ge")):
         t, body = get_tree(rep, f, "R12c", "TwoFloat::" + name)
